@@ -346,8 +346,8 @@ def gen_fn_cases(chk):
         big = [4096, 4095, 1000] if not thorough else [4096, 10000, 65535, 65536, 99999]
         for ic in big + [rng.randrange(100, 4097 if not thorough else 100000) for _ in range(3 if not thorough else 12)]:
             rnd_scram(alg, ic, False, "scram-iter-large")
-        for _ in range(60 if not thorough else 600):
-            rnd_scram(alg, rng.randrange(1, 6), rng.random() < (0.5 if alg != "512" else 0.2), "scram-random")
+        for _ in range(60 if not thorough else 4000):
+            rnd_scram(alg, rng.randrange(1, 6), rng.random() < ((0.5 if alg != "512" else 0.2) if not thorough else (0.12 if alg != "512" else 0.04)), "scram-random")
     # the model at a realistic iteration count, once
     rnd_scram("1", 300 if not thorough else 4096, True, "scram-iter-model-large")
 
@@ -386,7 +386,7 @@ def gen_fn_cases(chk):
         # long channel binding / first_bare / password
         raw_scram(alg, b64(b"p=tls-exporter,," + bytes(32)), b"r=abc,s=" + s0 + b",i=1", b"n=" + b"u" * 1000 + b",r=abc", b"p" * 1000, "scram-long-fields")
         raw_scram(alg, b"", b"r=abc,s=" + s0 + b",i=1", b"", b"", "scram-empty-fields")
-    for _ in range(150 if not thorough else 2000):
+    for _ in range(150 if not thorough else 20000):
         alg = rng.choice(["1", "256", "512"])
         toks = []
         for _ in range(rng.randrange(0, 7)):
@@ -465,7 +465,7 @@ def gen_fn_cases(chk):
         dg(text, jid, pw, kind if wf else "digest-unanswerable", True, wf=wf, node=node, domain=domain,
            srv={"nonce": nonce, "realms": realms, "qops": qops})
 
-    for _ in range(400 if not thorough else 6000):
+    for _ in range(400 if not thorough else 40000):
         wf_digest()
     mald = [b"", b",", b"nonce", b"=", b"=x", b"nonce=", b'nonce="', b'nonce="abc', b"nonce='abc'", b"realm=\"x\"", b'realm="x",qop="auth"',
             b'nonce="a",nonce="b"', b'nonce="a",realm="r1",realm=""', b'nonce="a",qop="auth",qop="auth-int"', b'nonce="a",qop=""', b'nonce="a",qop=,',
@@ -479,7 +479,7 @@ def gen_fn_cases(chk):
     for raw in (b"!!!!", b"QUJD=", b"QQ", b"", b"AA=A"):
         add("D %s %s %s %s" % (hx(raw), hx(b"u@d"), hx(b"p"), hx(bytes(6))), "digest-bad-base64", True, wf=False)
     add("D %s %s %s %s" % (hx(b64(b'nonce="a\0b"')), hx(b"u@d"), hx(b"p"), hx(bytes(6))), "digest-bad-base64", True, wf=False)
-    for _ in range(100 if not thorough else 1500):
+    for _ in range(100 if not thorough else 20000):
         parts = []
         for _ in range(rng.randrange(0, 6)):
             k = rng.choice([b"nonce", b"realm", b"qop", b"charset", b"x", b"", b"nonce "])
@@ -668,7 +668,7 @@ def gen_neg(chk):
         return rand_text(rng, rng.randrange(1, 24), alphabet=b"abcdefghijklmnopqrstuvwxyzABC019._-", special=0.2) \
             .replace(b"@", b"a").replace(b"/", b"s")
 
-    n = 1 if not thorough else 6
+    n = 1 if not thorough else 12
     for _ in range(n):
         for alg in ("1", "256", "512"):
             for plus in (False, True):
